@@ -85,9 +85,14 @@ def check_cfg(fx, rep, crate, cfg):
         tr = run.trace(t['args'][1])
         ok_conn = ok_stream = False
         det = {}
+        parts = None
         if tr.get('kind') == 'call' and 'ReplyStream' in (tr['callee'].get('def') or ''):
+            parts = tr['args']
+        elif tr.get('kind') == 'aggr' and 'ReplyStream' in (tr['rv'].get('adt') or ''):
+            parts = tr['rv'].get('ops') or []       # struct literal (or the constructor inlined)
+        if parts is not None:
             # which argument is the connection: the one whose type mentions Connection
-            for a in tr['args']:
+            for a in parts:
                 q = op_place(a)
                 ty = (q or {}).get('ty') or ''
                 cs = slice_calls(run, a)
